@@ -1,10 +1,24 @@
 #!/bin/bash
-# run a property's check against a seeded change: apply to /repo, check, undo
-# usage: try_seeded.sh <seeded/dir> <PROP> [tier]
+# run a property's check against a seeded change.
+# usage: try_seeded.sh <seeded/dir | patch.diff> <PROP> [tier]
+#   default: in a scratch worktree of /repo's HEAD under /tmp/seeded-try (VERIF_REPO), so /repo and
+#            the registered evidence are never touched and real checks may run at the same time;
+#   IN_REPO=1: the brief's way - apply to /repo, run the check, undo.
 d=$1; prop=$2; tier=${3:-quick}
 cd /verif
-git -C /repo status --short | grep -q . && { echo "/repo not clean"; exit 9; }
-git -C /repo apply $PWD/$d/patch.diff || exit 9
-./check $prop $tier > /tmp/try-$prop.log 2>&1; rc=$?
-git -C /repo checkout -- . 
+patch=$d; [ -d "$d" ] && patch=$d/patch.diff
+patch=$(readlink -f $patch)
+if [ -n "$IN_REPO" ]; then
+  git -C /repo status --short | grep -q . && { echo "/repo not clean"; exit 9; }
+  git -C /repo apply $patch || exit 9
+  ./check $prop $tier > /tmp/try-$prop.log 2>&1; rc=$?
+  git -C /repo checkout -- .
+else
+  wt=${TRY_WT:-/tmp/seeded-try}
+  [ -d $wt ] || git -C /repo worktree add --detach $wt HEAD >/dev/null 2>&1 || exit 9
+  git -C $wt checkout -q --detach $(git -C /repo rev-parse HEAD) && git -C $wt checkout -q -- . || exit 9
+  git -C $wt apply $patch || exit 9
+  VERIF_REPO=$wt ./check $prop $tier > /tmp/try-$prop.log 2>&1; rc=$?
+  git -C $wt checkout -q -- .
+fi
 echo "$d $prop $tier exit=$rc $(grep -a -c VIOLATION /tmp/try-$prop.log) violation lines; first: $(grep -a -m1 counterexample /tmp/try-$prop.log | cut -c1-260)"
